@@ -7,7 +7,7 @@ RULE = ("BFS over histories of public mutators (dict and list surface, arguments
         "pool) issued on the root and on retained child handles up to depth 3, plus navigation events; every "
         "history replayed on a fresh world of the real class; states merged by a structural hash of the "
         "object graph + reference state; non-trivial = distinct reached states (digest)")
-BOUNDS = {"quick": "18 classes x 2 initial contents, depth 2 (core values)",
+BOUNDS = {"quick": "18 classes x 2 initial contents, depth 2 (core values); JSON and Buffered families also in the in-place and write_concern write modes (threading off)",
           "thorough": "18 classes x 2 initial contents, depth 3 (core values); JSONDict/JSONList depth 3 full values"}
 ASSUMPTIONS = ["Redis/MongoDB/Zarr classes are decided against in-process fake stores (stubs for bson/numcodecs)",
                "reference model = built-in dict/list on plain JSON data"]
@@ -54,6 +54,12 @@ def plan(tier, seed):
                     extra = {"values": "VALUES_CORE", "rich": True}
             tasks.append(seqcheck.make_task("%s/%s/d%d" % (c, nm, depth), cfg, "alphabet", depth,
                                             {"resource"}, hooks="probe", extra=extra))
+            if env.family_of(c) in ("JSON", "Buffered") and nm == "nested":
+                # the two other write modes: in-place (threading off) and write_concern with threading off
+                for mode, wc in (("inplace", False), ("wc", True)):
+                    cfg2 = seq.Config(c, initial=(init,), label=c + "/" + mode, write_concern=wc, options={"threading": False})
+                    tasks.append(seqcheck.make_task("%s/%s/%s/d%d" % (c, nm, mode, 2), cfg2, "alphabet", 2,
+                                                    {"resource"}, hooks="probe", extra={"values": "VALUES_MIN", "rich": True}))
     return tasks
 
 
